@@ -691,6 +691,198 @@ Theorem C16_parse_pow2_bits_fit : forall len log_radix, 0 <= len < 2 ^ 61 -> 1 <
 Proof. intros len lr H1 H2. assert (len * lr <= len * 5) by nia. lia. Qed.
 Print Assumptions C16_parse_pow2_bits_fit.
 
+(** * round 4 *)
+(** ** (4) Repr::new / Repr::normalize with the isize exponent (finding F14, repaired by 064626d): as-is = specification *)
+From Dashu Require Float.Model.
+From Dashu Require Import Cross.ReprNew Cross.ReprNewProofs.
+
+Theorem C16_repr_new_asis_eq_spec : forall B, 2 <= B -> forall s e, TextIoSpec.in_isize e = true -> Z.log2 (Z.abs s) <= TextIoSpec.isize_max ->
+  repr_new_asis B s e = Ok (repr_new_spec B s e).
+Proof. exact repr_new_asis_eq_spec. Qed.
+Print Assumptions C16_repr_new_asis_eq_spec.
+
+Theorem C16_repr_new_overflow_iff : forall B, 2 <= B -> forall s e, TextIoSpec.in_isize e = true -> Z.log2 (Z.abs s) <= TextIoSpec.isize_max ->
+  (repr_new_asis B s e = Ok RnOverflow <-> s <> 0 /\ TextIoSpec.isize_max < e + snd (Model.normalize B s 0)).
+Proof. exact repr_new_overflow_iff. Qed.
+Print Assumptions C16_repr_new_overflow_iff.
+
+Theorem C16_repr_new_ok_value : forall B, 2 <= B -> forall s e s' e', TextIoSpec.in_isize e = true -> Z.log2 (Z.abs s) <= TextIoSpec.isize_max ->
+  repr_new_asis B s e = Ok (RnOk s' e') ->
+  TextIoSpec.in_isize e' = true /\ (s = 0 -> s' = 0 /\ e' = 0) /\ (s <> 0 -> s' mod B <> 0 /\ e <= e' /\ s = s' * B ^ (e' - e)).
+Proof. exact repr_new_ok_value. Qed.
+Print Assumptions C16_repr_new_ok_value.
+
+(** never the arithmetic-overflow panic, never out of fuel, for EVERY significand and exponent *)
+Theorem C16_repr_new_clean : forall B, 2 <= B -> forall s e, exists o, repr_new_asis B s e = Ok o /\ o <> RnArith.
+Proof. exact repr_new_asis_clean. Qed.
+Print Assumptions C16_repr_new_clean.
+
+(** the code before the repair: panic 'attempt to add with overflow' (checked builds) / 10 * 10^isize::MAX = 1 * 10^isize::MIN *)
+Theorem C16_repr_new_old_refuted :
+  repr_new_spec 10 10 TextIoSpec.isize_max = RnOverflow /\
+  repr_new_old true 10 10 TextIoSpec.isize_max = Ok RnArith /\
+  repr_new_old false 10 10 TextIoSpec.isize_max = Ok (RnOk 1 TextIoSpec.isize_min) /\
+  repr_new_asis 10 10 TextIoSpec.isize_max = Ok RnOverflow.
+Proof. exact repr_new_old_refuted. Qed.
+Print Assumptions C16_repr_new_old_refuted.
+
+Theorem C16_repr_from_fields_old_refuted :
+  repr_from_fields_old true 10 10 TextIoSpec.isize_max = Panic Undocumented /\
+  repr_from_fields_old false 10 10 TextIoSpec.isize_max = Ok (1, TextIoSpec.isize_min) /\
+  repr_from_fields_asis 10 10 TextIoSpec.isize_max = Err 1.
+Proof. exact repr_from_fields_old_refuted. Qed.
+Print Assumptions C16_repr_from_fields_old_refuted.
+
+(** ** (1) serde deserialisers: every visit_* method of every visitor, on every event a Deserializer can hand over *)
+From Dashu Require Import Cross.SerdeText Cross.SerdeTextProofs.
+
+Theorem C16_serde_struct_fields_never_panic : forall B s e p, 2 <= B ->
+  no_panic (repr_from_fields_asis B s e) /\ no_panic (fbig_from_fields_asis B s e p).
+Proof. intros B s e p HB. split; [apply repr_from_fields_no_panic | apply fbig_from_fields_no_panic]; exact HB. Qed.
+Print Assumptions C16_serde_struct_fields_never_panic.
+
+Theorem C16_serde_struct_fields_ok : forall B, 2 <= B -> forall s e p s' e' p', TextIoSpec.in_isize e = true ->
+  Z.log2 (Z.abs s) <= TextIoSpec.isize_max -> fbig_from_fields_asis B s e p = Ok (s', e', p') ->
+  p' = p /\ TextIoSpec.in_isize e' = true /\ (p = 0 \/ (s' = 0 /\ e' <> 0) \/ FloatOrdModel.ndigits B s' <= p).
+Proof. exact fbig_from_fields_ok. Qed.
+Print Assumptions C16_serde_struct_fields_ok.
+
+Theorem C16_serde_visit_never_panics : forall t ev, base_ok t -> event_wf ev -> no_panic (visit t ev).
+Proof. exact visit_no_panic. Qed.
+Print Assumptions C16_serde_visit_never_panics.
+
+Theorem C16_serde_deserialize_never_panics : forall t ev, base_ok t -> event_wf ev -> no_panic (deserialize t ev).
+Proof. exact deserialize_no_panic. Qed.
+Print Assumptions C16_serde_deserialize_never_panics.
+
+Theorem C16_serde_str_route : forall t s, visit t (EvStr s) = visit_str t s.
+Proof. exact visit_str_route. Qed.
+Print Assumptions C16_serde_str_route.
+
+Theorem C16_serde_visit_refuses : forall t : dtype, visit t EvOther = Err E_de /\
+  (forall items : list (option Z), t = DUBig \/ t = DIBig -> visit t (EvSeq items) = Err E_de) /\
+  (forall entries : list (option Z * option Z), t = DUBig \/ t = DIBig -> visit t (EvMap entries) = Err E_de) /\
+  (forall b : list Z, t <> DUBig -> t <> DIBig -> visit t (EvBytes b) = Err E_de).
+Proof. exact visit_refuses. Qed.
+Print Assumptions C16_serde_visit_refuses.
+
+Theorem C16_serde_json_int_route : forall (sg : bool) s v, deserialize (if sg then DIBig else DUBig) (EvStr s) = Ok (v, 0, 0) <->
+  exists r, IoSpec.from_str_prefix_spec sg 10 s = Ok (v, r).
+Proof. exact json_int_route. Qed.
+Print Assumptions C16_serde_json_int_route.
+
+Theorem C16_serde_json_float_route : forall B s, deserialize (DRepr B) (EvStr s) =
+  match infinity_from_str s with
+  | Some sg => Ok (0, sg, 0)
+  | None => as_de (rbind (parse_idx B s) (fun '(sig, e, _) => Ok (sig, e, 0)))
+  end.
+Proof. exact json_float_route. Qed.
+Print Assumptions C16_serde_json_float_route.
+
+Theorem C16_serde_infinity_texts : forall s sg, infinity_from_str s = Some sg <->
+  (s = [105; 110; 102] /\ sg = 1) \/ (s = [45; 105; 110; 102] /\ sg = -1).
+Proof. exact infinity_from_str_char. Qed.
+Print Assumptions C16_serde_infinity_texts.
+
+Theorem C16_serde_json_rbig_route : forall s n d c, deserialize DRBig (EvStr s) = Ok (n, d, c) -> 0 < d /\ Z.gcd n d = 1.
+Proof. exact json_rbig_route. Qed.
+Print Assumptions C16_serde_json_rbig_route.
+
+(** serde_json::from_slice::<T>(text) for every byte string (the text layer is a model of the third-party crate) *)
+Theorem C16_serde_json_text_never_panics : forall t text, base_ok t -> no_panic (serde_json_de t text).
+Proof. exact serde_json_de_no_panic. Qed.
+Print Assumptions C16_serde_json_text_never_panics.
+
+Theorem C16_serde_json_string_layer_total : forall fuel s acc, (length s < fuel)%nat -> no_panic (json_str fuel s acc).
+Proof. exact json_str_total. Qed.
+Print Assumptions C16_serde_json_string_layer_total.
+
+(** ** (2) extended Lehmer gcd: cited from C12 round 3, and closed to the public entry point here *)
+From Dashu Require Import Cross.LehmerExtTermination.
+
+Theorem C16_lehmer_ext_loop_total : forall fuel mdl w cap x y t0 t1 sw, 2 <= w -> 0 <= y <= x ->
+  x + y < Z.of_nat fuel -> GrlLehmer.lehmer_ext_loop fuel mdl w cap x y t0 t1 sw <> OutOfFuel.
+Proof. exact GrlLehmerProof.lehmer_ext_loop_total. Qed.
+Print Assumptions C16_lehmer_ext_loop_total.
+
+Theorem C16_lehmer_ext_loop_terminates : forall fuel mdl w cap x y t0 t1 sw, 2 <= w -> 0 <= y <= x -> x + y < Z.of_nat fuel ->
+  match GrlLehmer.lehmer_ext_loop fuel mdl w cap x y t0 t1 sw with
+  | Ok (x', y', _, _, _) => 0 <= y' <= x' /\ x' + y' <= x + y /\ GrlModel.wlen w y' <= 1
+  | Panic _ => True
+  | _ => False
+  end.
+Proof. exact lehmer_ext_loop_terminates. Qed.
+Print Assumptions C16_lehmer_ext_loop_terminates.
+
+Theorem C16_prim_gcd_ext_terminates : forall fuel a b, 0 <= a -> 0 <= b -> a < Z.of_nat fuel -> b < Z.of_nat fuel ->
+  GrlModel.prim_gcd_ext_asis fuel a b <> OutOfFuel.
+Proof. exact prim_gcd_ext_asis_terminates. Qed.
+Print Assumptions C16_prim_gcd_ext_terminates.
+
+Theorem C16_lehmer_gcd_ext_terminates : forall fuel w x y, 2 <= w -> 0 <= x -> 0 <= y -> x + y < Z.of_nat fuel ->
+  GrlLehmer.lehmer_gcd_ext_asis fuel w x y <> OutOfFuel.
+Proof. exact lehmer_gcd_ext_asis_terminates. Qed.
+Print Assumptions C16_lehmer_gcd_ext_terminates.
+
+(** ** (5) cost classes *)
+From Dashu Require Import Cross.CostClasses.
+
+Theorem C16_cost_units_positive : forall o, nonneg_op o -> 0 < cost_units o.
+Proof. exact cost_units_pos. Qed.
+Print Assumptions C16_cost_units_positive.
+
+Theorem C16_cost_covers_results : forall a b k e s B,
+  (0 < a -> 0 <= k -> bits (a * 2 ^ k) <= cost_units (CoShl (bits a) k)) /\
+  (0 < a -> 0 < b -> bits (a * b) <= cost_units (CoMul (bits a) (bits b))) /\
+  (0 < a -> 0 <= e -> bits (a ^ e) <= cost_units (CoPow (bits a) e)) /\
+  (0 < s -> 2 <= B -> 0 <= e -> bits (s * B ^ e) <= cost_units (CoToInt (bits s) (bits B) e)).
+Proof.
+  intros a b k e s B. split; [apply cost_covers_shl|]. split; [apply cost_covers_mul|]. split; [apply cost_covers_pow | apply cost_covers_to_int].
+Qed.
+Print Assumptions C16_cost_covers_results.
+
+Theorem C16_cost_length_polynomial : forall o, nonneg_op o -> value_sized o = false ->
+  cost_units o <= (input_len o + slack) * ((input_len o + slack) * (input_len o + slack)).
+Proof. exact length_polynomial. Qed.
+Print Assumptions C16_cost_length_polynomial.
+
+Theorem C16_shl_not_length_polynomial : forall c d, 0 < c -> 0 <= d ->
+  exists a k, 0 < a /\ 0 <= k /\ c * (bits a + bits k + 1) ^ d < bits (a * 2 ^ k).
+Proof. exact shl_not_length_polynomial. Qed.
+Print Assumptions C16_shl_not_length_polynomial.
+
+(** ** (3) the digit-level stop criterion of the series loops: cited from C11 round 3 (inside a module: the float record of
+       C11 and the value type of PanicSpec.v share field names) *)
+From Coq Require Reals.
+From Dashu Require Float.RoundSpec Float.Contract Float.ElemEntryProof Float.ElemEnclProof Float.ElemF32 Float.ElemAsis Float.ElemSubUlp Float.ElemSeriesFuel.
+Module SubUlpCite.
+Import Reals QArith Qabs.
+Open Scope Z_scope.
+
+Theorem C16_sub_ulp_positive_bounded : forall B, 2 <= B -> forall (F : Type) (O : ElemF32.f32ops F) W,
+  (forall x, 0 <= ElemF32.f_to_usize O x) -> forall x, 0 <= ElemAsis.fprec x -> Z.abs (ElemAsis.fsig x) <= B ^ (ElemAsis.fprec x + 1) ->
+  (Rabs (ElemEntryProof.fval B (ElemAsis.fsig x) (ElemAsis.fexp x)) * ElemEnclProof.bpw B (- (2 * ElemAsis.fprec x + 2)) <= ElemEnclProof.bpw B (ElemAsis.sub_ulp_exp B O W x))%R /\
+  (0 < ElemEnclProof.bpw B (ElemAsis.sub_ulp_exp B O W x))%R.
+Proof. exact @ElemSubUlp.sub_ulp_threshold. Qed.
+Print Assumptions C16_sub_ulp_positive_bounded.
+
+Theorem C16_series_fuel_with_sub_ulp : forall (B P : Z) eps rmul rdivz radd thr,
+  (2 <= B)%Z -> (0 <= P)%Z -> (0 <= eps /\ eps <= 1 # 16)%Q ->
+  (forall a b, Qabs (rmul a b) <= Qabs a * Qabs b * (1 + eps))%Q ->
+  (forall a d, (1 <= d)%Z -> Qabs (rdivz a d) * inject_Z d <= Qabs a * (1 + eps))%Q ->
+  (forall a b, Qabs (radd a b - (a + b)) <= eps * Qabs (a + b))%Q ->
+  (forall s, 1 / inject_Z (B ^ (2 * P + 2)) * Qabs s <= thr s)%Q ->
+  (inject_Z (Z.of_nat (ElemSeriesFuel.series_steps B P)) * eps <= 1 # 4)%Q ->
+  forall fuel, (ElemSeriesFuel.series_fuel B P <= fuel)%nat ->
+  (forall r, (Qabs r <= 1 # 2)%Q -> ElemSeriesFuel.exp_loop_r rmul rdivz radd thr fuel false r <> None) /\
+  (forall r, (Qabs r <= 1 # 2)%Q -> ~ (r == 0)%Q -> ElemSeriesFuel.exp_loop_r rmul rdivz radd thr fuel true r <> None) /\
+  (forall z z2, (Qabs z2 <= 1 # 4)%Q -> ~ (z == 0)%Q ->
+     ElemSeriesFuel.atanh_loop_r rmul rdivz radd (ElemSeriesFuel.ln_test thr) fuel z z2 <> None /\
+     ElemSeriesFuel.atanh_loop_r rmul rdivz radd (ElemSeriesFuel.iacoth_test thr) fuel z z2 <> None).
+Proof. exact ElemSeriesFuel.series_fuel_partial. Qed.
+Print Assumptions C16_series_fuel_with_sub_ulp.
+End SubUlpCite.
+
 (** the index-slice expressions present in the parser sources are exactly the modelled ones (regenerated list) *)
 From Coq Require Import String.
 Theorem C16_slice_sites_modelled :
@@ -699,3 +891,25 @@ Theorem C16_slice_sites_modelled :
   ParseSites.gen_int_slices = []%string.
 Proof. exact (conj gen_float_slices_modelled (conj gen_ratio_slices_modelled gen_int_slices_modelled)). Qed.
 Print Assumptions C16_slice_sites_modelled.
+
+(** the serde tables present in the sources are exactly the modelled ones (regenerated), and every type asks the
+    human-readable Deserializer for a string *)
+Theorem C16_serde_sites_modelled :
+  SerdeSites.gen_visitors =
+    [("int:UBigVisitor", ["visit_str"; "visit_bytes"]); ("int:IBigVisitor", ["visit_str"; "visit_bytes"]);
+     ("float:ReprVisitor", ["visit_str"; "visit_seq"; "visit_map"]); ("float:FBigVisitor", ["visit_str"; "visit_seq"; "visit_map"]);
+     ("ratio:ReprVisitor", ["visit_str"; "visit_seq"; "visit_map"])]%string /\
+  SerdeSites.gen_visit_str_calls =
+    [("int:UBigVisitor", "UBig::from_str_with_radix_prefix"); ("int:IBigVisitor", "IBig::from_str_with_radix_prefix");
+     ("float:ReprVisitor", "infinity_from_str;Repr::<B>::from_str_native"); ("float:FBigVisitor", "infinity_from_str;FBig::from_str_native");
+     ("ratio:ReprVisitor", "Repr::from_str_with_radix_prefix")]%string /\
+  SerdeSites.gen_infinity_strs = [([105; 110; 102], 1); ([45; 105; 110; 102], -1)]%Z /\
+  SerdeSites.gen_zero_sig_exps = [(0, 0); (1, 1); (-1, -1)]%Z /\
+  SerdeSites.gen_repr_from_fields_ctor = "Repr{significand,exponent}.try_normalize()"%string /\
+  SerdeSites.gen_exponent_step = "isize::try_from(shift).ok().and_then(|shift|exponent.checked_add(shift))?"%string.
+Proof. exact serde_sites_modelled. Qed.
+Print Assumptions C16_serde_sites_modelled.
+
+Theorem C16_serde_human_route_is_str : forallb (fun e => asks_for_str (snd (fst e))) SerdeSites.gen_entry_points = true.
+Proof. exact serde_human_route_is_str. Qed.
+Print Assumptions C16_serde_human_route_is_str.
